@@ -208,6 +208,22 @@ func runC05(c *fw.Ctx) {
 			})
 		}
 	}
+	// ---- shapes with TWO dimensions of 10..13 (positions with two digits next to each other: keys built from run-together
+	// decimal positions collide, e.g. (1,10) and (11,0)) and a third, small one; every reducer, every dimension ----
+	for _, shape := range [][]int{{12, 11, 3}, {3, 12, 11}, {11, 2, 13}, {12, 12}, {21, 3, 12}, {10, 11}, {2, 13, 11, 2}} {
+		for dim := range shape {
+			for oi, op := range c05Along {
+				shape, dim, oi, op := shape, dim, oi, op
+				c.Case(func(k *fw.K) {
+					x, cname := c05Data(k, k.Rng.Intn(2), shape)
+					k.Case = map[string]any{"op": op, "dim": dim, "shape": shape, "class": cname}
+					k.Key("%s/%s/%d/two-digit-positions", op, shapeKey(shape), dim)
+					k.Count("along_cases_with_two_digit_positions", 1)
+					c05Along1(k, ref.Instr{Op: op, Dim: dim}, ref.Stat(oi), x)
+				})
+			}
+		}
+	}
 	// ---- every reducer along every dimension of ONE operand object, the results kept and read only after all calls were made ----
 	for i := 0; i < c.Pick(1500, 30000); i++ {
 		c.Case(func(k *fw.K) { c05KeptResults(k) })
